@@ -302,6 +302,45 @@ func TestVerifC18(t *testing.T) {
 		}
 	}
 
+	// (a') dirty pooled buffers: a frame cut mid-body (the peer closes) received after an earlier
+	// complete message of the same size, twice with different earlier messages.  Whatever recv
+	// makes of the cut frame must not depend on the earlier message.
+	fresh := func(_ tag, t msgType) (message, error) {
+		if msgDotLRegistry.factories[t].create == nil {
+			return nil, &ErrInvalidMsgType{t}
+		}
+		return msgDotLRegistry.factories[t].create(), nil
+	}
+	for _, ty := range types {
+		for rep := 0; rep < rounds; rep++ {
+			m := msgDotLRegistry.factories[ty].create()
+			g := &vh01Gen{r: r, profile: []string{"max", "random", "longlist"}[rep%3], listLen: 5}
+			g.fill(reflect.ValueOf(m).Elem())
+			base := vh18Frame(m, tag(r.Intn(65536)))
+			body := len(base) - 7
+			if body < 2 {
+				continue
+			}
+			other := append([]byte(nil), base...)
+			for i := 7; i < len(other); i++ {
+				other[i] = 0
+			}
+			for _, k := range []int{1, body / 2, body - 1} {
+				if k < 1 || k >= body {
+					continue
+				}
+				cut := base[:7+k]
+				recv(ulog.Null, bytes.NewReader(base), maximumLength, fresh) // leaves base's bytes in the pooled buffer
+				tg, m1, err := recv(ulog.Null, bytes.NewReader(cut), maximumLength, fresh)
+				ra := vh01Result(tg, m1, err)
+				recv(ulog.Null, bytes.NewReader(other), maximumLength, fresh)
+				tg, m2, err := recv(ulog.Null, bytes.NewReader(cut), maximumLength, fresh)
+				rb := vh01Result(tg, m2, err)
+				o.Emit(map[string]interface{}{"k": "cut", "typ": uint8(ty), "msize": maximumLength, "at": k, "wire": hex.EncodeToString(cut), "a": ra, "b": rb})
+			}
+		}
+	}
+
 	// (b) two connections to one server
 	w := &vh18World{}
 	srv := NewServer(&vh18Attacher{w: w})
@@ -342,6 +381,7 @@ func TestVerifC18(t *testing.T) {
 		{"write", big, 1}, {"write", 5, 2}, {"write", 0, 0}, {"write", big + 4000, 3}, {"write", big, 4}, {"write", 1, 5},
 		{"read", big - 1000, 7}, {"read", 3, 9}, {"read", 0, 0}, {"read", big - 1000, 11}, {"read", 100, 13},
 		{"readdir", 40, 9}, {"readdir", 2, 1}, {"readdir", 0, 0}, {"readdir", 200, 30}, {"readdir", 1, 39},
+		{"readdir-exact", 1, 4}, {"readdir-exact", 3, 0}, {"readdir-exact", 17, 11},
 		{"walkgetattr", 10, 17}, {"walkgetattr", 1, 2}, {"walkgetattr", 0, 0},
 	}
 	nsteps := 60
@@ -375,9 +415,16 @@ func TestVerifC18(t *testing.T) {
 		case "read":
 			off := uint64(op.n)<<16 | uint64(op.l)<<8 | uint64(p.id*37+op.l)
 			return pending{op: op, tag: p.send(&tread{fid: 2, Offset: off, Count: uint32(op.n + 10)})}
-		default: // readdir
+		default: // readdir; -exact: Count is exactly the size of the n entries the backend has
 			off := uint64(op.n)<<8 | uint64(op.l)
-			return pending{op: op, tag: p.send(&treaddir{Directory: 1, Offset: off, Count: 4096})}
+			count := uint32(4096)
+			if op.kind == "readdir-exact" {
+				count = 0
+				for i := 0; i < op.n; i++ {
+					count += uint32(24 + 1 + (op.l+i)%40)
+				}
+			}
+			return pending{op: op, tag: p.send(&treaddir{Directory: 1, Offset: off, Count: count})}
 		}
 	}
 	finish := func(p *vh18Peer, q pending) {
@@ -422,7 +469,10 @@ func TestVerifC18(t *testing.T) {
 			if len(cs) != 1 {
 				panic("readdir: backend calls != 1")
 			}
-			vh18Srv(o, "readdir", p.id, []interface{}{[]interface{}{"ents", vh18Ents(cs[0].ents)}},
+			if q.op.kind == "readdir-exact" && len(cs[0].ents) != q.op.n {
+				panic("readdir-exact: backend did not fit its entries")
+			}
+			vh18Srv(o, q.op.kind, p.id, []interface{}{[]interface{}{"ents", vh18Ents(cs[0].ents)}},
 				[]interface{}{[]interface{}{"ents", vh18Ents(m.(*rreaddir).Entries)}})
 		}
 		msgDotLRegistry.put(m) // as Client.sendRecv's callers do with responses
